@@ -422,7 +422,40 @@ def run_k2times(ctx, p):
     ctx.observe("restr.ctor", "Kenamond2", valid, branch=br + (" (admissible: accepted)" if valid else " (violating: must be rejected)"), detail=dict(det, outcome="accepted"))
 
 
+# ---- EHEP: inside the documented window (0 <= x <= xmax, 0 < t <= tmax) the products are where the slab was ----------------------------
+def gen_ehepwin(rng, i, tier):
+    D = logu(rng, 0.3, 3)
+    xt = logu(rng, 0.3, 3)
+    return dict(D=D, rho_0=logu(rng, 0.5, 5), up=D * uni(rng, 0.01, 0.2), xtilde=xt, xmax=xt * uni(rng, 1.02, 3.0), tmax=xt / D * uni(rng, 1.05, 4.0),
+                pseed=int(rng.integers(2 ** 31)))
+
+
+def run_ehepwin(ctx, p):
+    from exactpack.solvers.ehep.ehep import EscapeOfHEProducts
+    kw = {k: p[k] for k in ("D", "rho_0", "up", "xtilde", "xmax", "tmax")}
+    s = ctx.make(EscapeOfHEProducts, **kw)
+    rng = np.random.default_rng(p["pseed"])
+    bad, n = [], 0
+    for t in p["tmax"] * np.array([0.1, 0.3, 0.5, 0.7, 0.85, 0.95, 0.999]):
+        lo, hi = p["up"] * t, min(0.98 * p["D"] * t, p["xmax"])
+        if lo >= 0.98 * hi:
+            continue
+        x = lo + (hi - lo) * rng.uniform(0.02, 0.98, size=8)
+        sol = ctx.call(s, np.sort(x), float(t))
+        rho = np.asarray(sol["density"], float)
+        n += len(rho)
+        for xx, r in zip(np.sort(x), rho):
+            if not (np.isfinite(r) and r > 0):
+                bad.append([float(xx), float(t), float(r)])
+    # between the piston (x = up t) and the leading edge of the products (the detonation front x = D t, which for gamma = 3
+    # is also the escape front after it has left the slab) there is explosive or detonation product at every time: a
+    # zero-density ("no region") record there is not a solution
+    ctx.observe("restr.domain", "EscapeOfHEProducts", not bad, branch="inside the documented window, between piston and leading edge (up t < x < 0.98 D t): density > 0",
+                detail=dict(params=kw, points_checked=n, first_bad=bad[:3], n_bad=len(bad)))
+
+
 UNITS = [
+    Unit("ehep.window", gen_ehepwin, run_ehepwin, quick=48, thorough=480, min_nontrivial=40),
     Unit("kenamond2.times", gen_k2times, run_k2times, quick=72, thorough=720, min_nontrivial=60),
     Unit("blake.nonpd", gen_blake, run_blake, quick=15 * len(NONPD), thorough=15 * len(NONPD) * 6, min_nontrivial=100),
     Unit("restriction", gen_restr, run_restr, quick=(len(FLAT) + 12) * 2, thorough=(len(FLAT) + 12) * 12, min_nontrivial=len(FLAT)),
